@@ -25,7 +25,10 @@ ASSUMPTIONS = [
 
 def shards(tier):
     n = 700 if tier == "quick" else 25000
-    return [{"name": k + str(i), "kind": k, "examples": n} for k in ("plurality", "approval", "super") for i in (1, 2)]
+    return [{"name": k + str(i), "kind": k, "examples": n} for k in ("plurality", "approval", "super") for i in (1, 2)] + [
+        # collections of thousands of cards (a generated collection repeated up to a size of 4097 .. 40000, then a remainder):
+        # few cases, since each costs about a second
+        {"name": k + "-big", "kind": k, "examples": 6 if tier == "quick" else 120, "big": True} for k in ("plurality", "super")]
 
 
 def strategy(shard):
@@ -65,7 +68,10 @@ def strategy(shard):
             aux = {"first": draw(st.booleans()), "n_winners": draw(st.sampled_from([1, 1, 2])), "ballots": [draw(mark) for _ in range(n)],
                    # ... which may be one that Contest.tally does not tabulate at all (a ranked contest)
                    "irv": draw(st.sampled_from([False, False, True]))}
-        return {"kind": kind, "cands": cands, "winners": winners, "f": f, "ballots": ballots, "aux": aux,
+        size = None
+        if shard.get("big") and ballots:
+            size = draw(st.sampled_from([4097, 5000, 8193, 10001, 10500, 12345, 20001, 32769, 40000])) + draw(st.integers(0, 40))
+        return {"kind": kind, "cands": cands, "winners": winners, "f": f, "ballots": ballots, "aux": aux, "size": size,
                 # what the records are called is nobody's business in a tally: unnamed records, or all under one default name
                 "ids": draw(st.sampled_from(["unique", "unique", "unique", "none", "same"]))}
 
@@ -127,6 +133,12 @@ def evaluate(case, out):
     import numpy as np
     from shangrla.core.Audit import Contest
 
+    if case.get("size"):
+        # the collection repeated up to the given size (the last repetition is cut short)
+        n0, size = len(case["ballots"]), case["size"]
+        rep = lambda lst: (lst * (size // n0 + 1))[:size]
+        case = dict(case, ballots=rep(case["ballots"]), aux=(dict(case["aux"], ballots=rep(case["aux"]["ballots"])) if case.get("aux") else None))
+        out.cls("thousands-of-cards")
     kind, cands, winners, ballots = case["kind"], case["cands"], case["winners"], case["ballots"]
     out.cls(kind)
     have = [b for b in ballots if b is not None]
